@@ -16,6 +16,7 @@ mod ent_unit;
 mod cssmap_unit;
 mod rpx_unit;
 mod cssws_unit;
+mod bmc_unit;
 
 pub struct Outcome {
     pub found: bool,
@@ -72,6 +73,8 @@ fn main() {
         ("RPX", "run") => rpx_unit::run(&input.unwrap()),
         ("CSSWS", "search") => cssws_unit::search(),
         ("CSSWS", "run") => cssws_unit::run(&input.unwrap()),
+        ("BMC", "search") => bmc_unit::search(),
+        ("BMC", "run") => bmc_unit::run(&input.unwrap()),
         ("TOTAL", "search") => total_unit::search(),
         ("TOTAL", "run") => total_unit::run(&input.unwrap()),
         _ => {
